@@ -246,13 +246,23 @@ def v_ops(names, ops):
 
 # ----------------------------------------------------------------------------- one strace case
 
-def make_dir(base, fname, old, mode):
+KINDS = ["regular", "symlink", "hardlink"]
+
+
+def make_dir(base, fname, old, mode, kind="regular"):
+    """The case directory. kind: the target is a regular file, a symbolic link to a regular file of the same directory
+    ('shared_<name>', which must keep its content), or one of two hard links to the same file ('hl_<name>' is the other)."""
     shutil.rmtree(base, ignore_errors=True)
     os.makedirs(base)
     p = os.path.join(base, fname)
-    with open(p, "wb") as f:
+    real = os.path.join(base, "shared_" + fname) if kind == "symlink" else p
+    with open(real, "wb") as f:
         f.write(old)
-    os.chmod(p, mode)
+    os.chmod(real, mode)
+    if kind == "symlink":
+        os.symlink("shared_" + fname, p)
+    elif kind == "hardlink":
+        os.link(p, os.path.join(base, "hl_" + fname))
     with open(os.path.join(base, BYSTANDER), "wb") as f:
         f.write(b"x\n")
     return p
@@ -267,18 +277,18 @@ def strace_run(binp, target, trace_file, inject=None):
     return rc, out
 
 
-def run_case(ck, binp, ci, fname, old, mode, only_kill=None, unpriv=False):
+def run_case(ck, binp, ci, fname, old, mode, kind="regular", only_kill=None, unpriv=False, all_calls=True):
     """Returns dict with baseline ops, per-crash-point observations; records property violations."""
     base = os.path.join(ck.work, "case%d" % ci)
     d = os.path.join(base, "d")
     tr = os.path.join(base + ".trace")
-    rep0 = {"file_name": fname, "old_hex": old.hex(), "mode": oct(mode)}
-    target = make_dir(d, fname, old, mode)
+    rep0 = {"file_name": fname, "old_hex": old.hex(), "mode": oct(mode), "kind": kind}
+    target = make_dir(d, fname, old, mode, kind)
     before = listing(d)
     rc, out = strace_run(binp, target, tr)
     trace = parse_trace(tr)
     after = listing(d)
-    res = {"ok": False, "fname": fname, "old": old, "mode": mode, "before": before, "after": after, "points": []}
+    res = {"ok": False, "fname": fname, "old": old, "mode": mode, "kind": kind, "before": before, "after": after, "points": []}
     if rc != 0 or not trace:
         ck.violation("clean-run-fails", "langlint failed on a valid message file (rc=%s): %s" % (rc, out[-300:]), replay=rep0)
         return res
@@ -307,11 +317,15 @@ def run_case(ck, binp, ci, fname, old, mode, only_kill=None, unpriv=False):
         if only_kill is not None and j - first != only_kill:
             continue
         r = rel[j]
+        # quick tier: calls that are no operation (stat, lstat, read-only close) leave the directory as the entry of
+        # the next operation does, so only the entries of operations are killed at (thorough tier: every call)
+        if only_kill is None and not all_calls and r["op"] is None:
+            continue
         # strace counts 'when' per thread: occurrence number of this call within the issuing thread
         ordn = sum(1 for t in trace[:r["idx"]] if t["pid"] == r["pid"] and t["name"] == r["name"]) + 1
         good = False
         for attempt in range(4):
-            target = make_dir(d, fname, old, mode)
+            target = make_dir(d, fname, old, mode, kind)
             trk = base + ".k%d.trace" % j
             rck, outk = strace_run(binp, target, trk, inject=(r["name"], ordn))
             tk = parse_trace(trk)
@@ -366,7 +380,7 @@ def run_case(ck, binp, ci, fname, old, mode, only_kill=None, unpriv=False):
 def run(ck):
     quick = ck.tier == "quick"
     ck.cov["rule"] = ("strace route: generated valid message files that langlint changes (1-4 sections, 2-6 descending keys, "
-                      "comments, blank lines, CRLF 15%), file names with/without spaces, target modes 0644/0600/0664/0755 and write-protected 0444/0400 (at least one writable, one owner-only and two read-only targets in every run); every "
+                      "comments, blank lines, CRLF 15%), file names with/without spaces, target modes 0644/0600/0664/0755 and write-protected 0444/0400 (at least one writable, one owner-only and two read-only targets in every run), target kinds regular file / symbolic link to a regular file of the same directory / one of two hard links (each kind at least twice in every run; the link target and the other hard link are directory entries whose content must stay as it was); every "
                       "file-system call of the rewrite is a crash point (process killed on entry). harness route: "
                       "rewriteFile on arbitrary byte contents (empty, binary, > 100 KB) and lintFile on generated files. "
                       "distinct_nontrivial = distinct (file content, crash point) pairs actually killed at, with the "
@@ -379,9 +393,11 @@ def run(ck):
                "strace syscall trace and inject=<call>:signal=KILL:when=<n> (kill on entry, call not executed)",
                "props/C36.py: trace parser, role abstraction of names (target/temp/backup/bystander), comparison",
                "harness/C36/c36_test.go (in-package overlay)")
-    coq_ok = ck.coq_stage(GROUP, theorems=["C36_crash_safe", "C36_prefix_safe", "C36_no_litter", "C36_later_run_clean",
+    coq_ok = ck.coq_stage(GROUP, theorems=["C36_crash_safe", "C36_frame", "C36_prefix_safe", "C36_no_litter", "C36_later_run_clean",
                                            "C36_old_refuted", "C36_old_litter_refuted"])
 
+    import time as _t
+    t_coq = _t.time()
     # ---- the real binary from the working tree
     binp = os.path.join(ck.work, "langlint")
     ov = vf.go_overlay(os.path.join(ck.work, "binov"), {"tools/langlint/zz_verif_c36_lock.go":
@@ -398,21 +414,24 @@ def run(ck):
                      replay={"log": hbin[-3000:]}, found_input=False)
         return
 
+    t_build = _t.time()
     # ---- strace cases
-    ncase = 6 if quick else 40
+    ncase = 8 if quick else 48
     # the pinned test's file first; then the same file write-protected (a rewrite may treat such targets differently);
     # every tier enumerates all crash points for writable, owner-only and read-only targets
-    cases = [("messages_xx.txt", b"[b]\nz=one\na=two\n", 0o644), ("messages_xx.txt", b"[b]\nz=one\na=two\n", 0o444)]
+    pinned = b"[b]\nz=one\na=two\n"
+    cases = [("messages_xx.txt", pinned, 0o644, "regular"), ("messages_xx.txt", pinned, 0o444, "regular"),
+             ("messages_xx.txt", pinned, 0o644, "symlink"), ("messages_xx.txt", pinned, 0o644, "hardlink")]
     fnames = ["messages_en.txt", "messages fr.txt", "m.txt", "messages_x.y.txt"]
-    forced = [0o600, 0o400]
+    forced = [(0o600, "regular"), (0o400, "symlink"), (0o444, "hardlink")]
     while len(cases) < ncase:
-        mode = forced.pop(0) if forced else ck.rng.choice(MODES)
-        cases.append((ck.rng.choice(fnames), gen_message_file(ck.rng), mode))
+        mode, kind = forced.pop(0) if forced else (ck.rng.choice(MODES), ck.rng.choice(KINDS))
+        cases.append((ck.rng.choice(fnames), gen_message_file(ck.rng), mode, kind))
     only_kill = None
     if ck.replay_file:
         rp = json.load(open(ck.replay_file))["replay"]
         if "old_hex" in rp:
-            cases = [(rp["file_name"], bytes.fromhex(rp["old_hex"]), int(rp.get("mode", "0o644"), 8))]
+            cases = [(rp["file_name"], bytes.fromhex(rp["old_hex"]), int(rp.get("mode", "0o644"), 8), rp.get("kind", "regular"))]
             if "kill_at" in rp:
                 only_kill = rp["kill_at"]["relevant_call_index"]
     # can the later run be made as an ordinary user? (root + setpriv + the binary reachable for that user)
@@ -423,17 +442,18 @@ def run(ck):
         unpriv = rcu == 0
     ck.cov.setdefault("input_distribution", {})
     results = []
-    for ci, (fname, old, mode) in enumerate(cases):
-        results.append(run_case(ck, binp, ci, fname, old, mode, only_kill, unpriv))
+    for ci, (fname, old, mode, kind) in enumerate(cases):
+        results.append(run_case(ck, binp, ci, fname, old, mode, kind, only_kill, unpriv, all_calls=not quick or ci == 0))
     npoints = sum(len(r["points"]) for r in results)
     nontriv = set()
     for r in results:
         for p in r["points"]:
-            nontriv.add((r["old"], r["mode"], p["j"]))
+            nontriv.add((r["old"], r["mode"], r["kind"], p["j"]))
     if npoints == 0 and not ck.viol:
         ck.violation("no-crash-point", "no crash point of the rewrite could be exercised (see notes)", replay={"notes": ck.notes},
                      found_input=False)
 
+    t_strace = _t.time()
     # ---- harness cases: rewriteFile / lintFile in process
     hcases = []
     nh = 40 if quick else 400
@@ -489,6 +509,8 @@ def run(ck):
             nontriv.add(("L", old))
             hmodel.append((fname, old, ents.get(fname, (b"",))[0], {n: c for n, (c, m) in ents.items()}))
 
+    ck.cov["phase_seconds"] = {"coq_stage": round(t_coq - ck.t0, 1), "go_builds": round(t_build - t_coq, 1),
+                               "strace_cases": round(t_strace - t_build, 1), "harness": round(_t.time() - t_strace, 1)}
     ck.cov["evaluations"] = npoints * 2 + len(results) + len(hcases)
     ck.cov["distinct_nontrivial"] = len(nontriv)
     ck.cov["input_distribution"] = {"strace_cases": len(results), "crash_points_killed": npoints,
@@ -498,6 +520,7 @@ def run(ck):
                                     "harness_new_over_100KB": sum(1 for h in hcases if len(h[5]) > 100000),
                                     "crlf_files": sum(1 for c in cases if b"\r\n" in c[1]),
                                     "strace_case_modes": sorted({oct(c[2]) for c in cases}),
+                                    "strace_case_kinds": {k: sum(1 for c in cases if c[3] == k) for k in KINDS},
                                     "read_only_targets": sum(1 for c in cases if not c[2] & 0o200),
                                     "later_run_of_read_only_targets_unprivileged": unpriv}
     for r in results[:2]:
@@ -565,11 +588,11 @@ Definition hf (i : nat) (c : list (name * content) * content * list (name * cont
                      "violated the property in this run" % (o[1],), replay={"file_name": good[i]["fname"],
                      "old_hex": good[i]["old"].hex()}, found_input=False)
     for i in resc["PR"][:1]:
-        ck.violation("corr-oplist", "operation list of the real rewrite %s (target mode %o) differs from the model's ops_fixed "
+        ck.violation("corr-oplist", "operation list of the real rewrite %s (target mode %o, %s) differs from the model's ops_fixed "
                      "[Remove tmp; Create tmp; Write tmp new; Close tmp; Chmod tmp; Rename tmp path] (theorems C36_* are about the latter); "
-                     "no crash point violated the property in this run" % ([o[0] for o in good[i]["ops"]], good[i]["mode"]),
-                     replay={"file_name": good[i]["fname"], "old_hex": good[i]["old"].hex(), "mode": oct(good[i]["mode"])},
-                     found_input=False)
+                     "no crash point violated the property in this run" % ([o[0] for o in good[i]["ops"]], good[i]["mode"], good[i]["kind"]),
+                     replay={"file_name": good[i]["fname"], "old_hex": good[i]["old"].hex(), "mode": oct(good[i]["mode"]),
+                             "kind": good[i]["kind"]}, found_input=False)
     for code in resc["ST"][:1]:
         i, k = divmod(code, 100)
         ck.violation("corr-state", "directory after a kill with %d operations completed differs from the model's prefix state" % k,
